@@ -251,13 +251,15 @@ class PropertiesDataBounds(PropertiesData):
             isreftime = calendar is not None
             units = ""
         else:
+            # Units that are not a string are shown as they are
+            units = str(units)
             isreftime = "since" in units
 
         if isreftime:
             if calendar is None:
                 calendar = ""
 
-            units += " " + calendar
+            units += f" {calendar}"
 
         return f"{self.identity('')}{dims} {units}"
 
